@@ -5,7 +5,13 @@ every generated comparison equal to the category definition; (2) the generated d
 (compiled into the model driver) are compared with the real functions on every length in a
 range (validates the translator); (3) the glue of check_command is compared with Model/Check
 on multisets of lengths spread over files (scan_file is replaced by a stub that returns
-measurements of the requested lengths)."""
+measurements of the requested lengths); (4) stream `cli-entry`: the CLI entry function
+`codelimit.__main__.check` in fresh interpreters on real source files under every configuration
+(--quiet, --verbose, .codelimit.yml verbose / exclude, --exclude, file / directory arguments, the
+same call twice in one process), stdout+stderr / listing / summary / exit status judged by the
+property text; (5) stream `scan-history`: scan, change the tree (copy / rename to the sibling
+language, rewrite, delete), scan again with the first report handed back: per-language counters,
+findings and `check .` judged by the lengths the files have now."""
 import contextlib
 import io
 import os
@@ -21,7 +27,7 @@ import logic
 ID = "C02"
 TRUSTED = [
     "translator/logic.py (+ symtrace.py, sites.py: symbolic tracing of the real functions -> Lean for the integer decision logic; trusted parts listed in its header); its output is also exercised against the real functions for every length explored",
-    "correspondence harness harness/props/C02.py; rich/typer output capture",
+    "correspondence harness harness/props/C02.py (+ c02_cli_worker.py: fresh interpreters calling codelimit.__main__.check); rich/typer output capture",
 ]
 ASSUMPTIONS = ["function lengths are Python ints (the analysis only produces ints)"]
 BOUNDARY = [14, 15, 16, 17, 29, 30, 31, 32, 59, 60, 61, 62]
@@ -321,6 +327,20 @@ def search(ctx, hints):
 
 def replay(payload):
     inp = payload["input"]
+    if inp["stream"] == "cli-entry":
+        obs = run_cli_case(inp)
+        bad = cli_judge(inp, obs)
+        print("codelimit.__main__.check(%s, exclude=%s, quiet=%s, verbose=%s) with .codelimit.yml=%r, function lengths %s" % (
+            inp["args"], inp["exclude"], inp["quiet"], inp["verbose"], inp["config"], inp["files"]))
+        for o in obs:
+            print("exit %s, printed %r" % (o["code"], o["out"][:400]))
+        print("violated: %s" % (bad or "nothing"))
+        return not bad
+    if inp["stream"] == "scan-history":
+        bad = run_history_case(inp)
+        print("files %s, then %s" % (inp["files"], inp["steps"]))
+        print("violated: %s" % (bad or "nothing"))
+        return not bad
     if inp["stream"] == "classify":
         i = real_classify(inp["L"])
         print("L=%d -> %s (required %s)" % (inp["L"], i, expected_classify(inp["L"])))
@@ -333,6 +353,352 @@ def replay(payload):
     return i == exp
 
 
+# ------------------------------------------------------------------ stream `cli-entry`: the CLI entry function, fresh processes,
+# configuration variants (.codelimit.yml verbose / exclude, --verbose, --exclude, --quiet), real source files
+
+CLI_FILES = ["a.py", "web/b.js", "src/c.c", "src/deep/d.ts", "e.cpp", "lib/f.py", "notes.txt"]
+CLI_CLASSES = {"clean": [1, 3, 14, 15, 16, 29, 30], "warn": [31, 32, 45, 59, 60], "alarm": [61, 62, 75, 200]}
+CLI_CONFIGS = [None, "verbose: true\n", "verbose: false\n", "exclude:\n- web/\n", "verbose: true\nexclude:\n- '*.c'\n"]
+_CLI_LINE = re.compile(r"^(.*?):(\d+):(\d+): (\d+) (\S+) (.*)$")
+
+
+def cli_source(name, lengths):
+    """a source file whose i-th function `u<i>` is exactly lengths[i] lines long (first line known by construction)"""
+    import select_real as sel
+    ext = os.path.splitext(name)[1]
+    parts = []
+    for i, n in enumerate(lengths):
+        if ext == ".py":
+            parts.append(sel.py_function("u%d" % i, max(n, 2)) if n > 1 else "def u%d(a): return a\n" % i)
+        elif ext in (".js", ".ts"):
+            parts.append(sel.brace_function("function u%d(a)" % i, max(n, 2)) if n > 1 else "function u%d(a) { return a; }\n" % i)
+        elif ext in (".c", ".cpp"):
+            parts.append(sel.brace_function("int u%d(int a)" % i, max(n, 2)) if n > 1 else "int u%d(int a) { return a; }\n" % i)
+        else:
+            parts.append("text %d\n" % i)
+    return "\n".join(parts)
+
+
+def gen_cli_case(rnd, quiet, verbose_how, cls, form):
+    """verbose_how: none | option | config-true | config-false; cls: clean | warn | alarm; form: files | dot | dirs"""
+    names = rnd.sample(CLI_FILES, rnd.choice([1, 2, 3, 4]))
+    files = {}
+    for n in names:
+        files[n] = [rnd.choice(CLI_CLASSES["clean"]) for _ in range(rnd.choice([0, 1, 2, 3]))]
+    src = [n for n in names if not n.endswith(".txt")]
+    if cls != "clean" and not src:
+        src = ["a.py"]; files["a.py"] = []
+    if cls != "clean":
+        files[rnd.choice(src)].append(rnd.choice(CLI_CLASSES[cls]))
+        if rnd.random() < 0.5:
+            files[rnd.choice(src)].append(rnd.choice(CLI_CLASSES["warn"]))
+    for n in files:
+        rnd.shuffle(files[n])
+    config = {"none": rnd.choice([None, None, "exclude:\n- web/\n"]), "option": rnd.choice([None, "verbose: false\n"]),
+              "config-true": rnd.choice(["verbose: true\n", "verbose: true\nexclude:\n- '*.c'\n"]), "config-false": "verbose: false\n"}[verbose_how]
+    exclude = [rnd.choice(["lib/", "*.ts", "e.cpp"])] if rnd.random() < 0.2 else []
+    if form == "files":
+        args = sorted(files)
+        rnd.shuffle(args)
+    elif form == "dot":
+        args = ["."]
+    else:
+        args = sorted({n.split("/")[0] for n in files})
+    return {"stream": "cli-entry", "files": files, "config": config, "quiet": quiet, "verbose": verbose_how == "option",
+            "exclude": exclude, "args": args, "calls": 2 if rnd.random() < 0.15 else 1}
+
+
+def cli_expected(case):
+    """the property text on this invocation: which files are checked, what is listed, the summary, the exit
+    code, and whether anything may be printed at all"""
+    import select_real as sel
+    pats = list(case["exclude"])
+    if case["config"] and "exclude" in case["config"]:
+        pats += [l.strip()[2:].strip().strip("'") for l in case["config"].splitlines() if l.strip().startswith("- ")]
+    checked = {}
+    for a in case["args"]:
+        for n in sorted(case["files"]):
+            if not (a == "." or n == a or n.startswith(a + "/")) or n.endswith(".txt"):
+                continue
+            if sel.spec_excluded(n.split("/"), pats):
+                continue
+            line, rows = 1, []
+            for i, L in enumerate(case["files"][n]):
+                rows.append([n, line, L, "u%d" % i])
+                line += max(L, 1) + 1
+            checked[n] = sorted([r for r in rows if r[2] > 30], key=lambda r: -r[2])
+    total = sum(len(v) for v in checked.values())
+    code = 1 if any(r[2] > 60 for v in checked.values() for r in v) else 0
+    silent = case["quiet"] and total == 0
+    return {"checked": checked, "total": total, "code": code, "silent": silent}
+
+
+def run_cli_case(case):
+    """-> list of per-call observations {code, error, out}"""
+    import shutil
+    import subprocess
+    import json as _json
+    tmp = os.path.realpath(tempfile.mkdtemp(prefix="c02cli_"))
+    root = os.path.join(tmp, "root")
+    try:
+        for n, lengths in case["files"].items():
+            os.makedirs(os.path.dirname(os.path.join(root, n)) or root, exist_ok=True)
+            with open(os.path.join(root, n), "w") as f:
+                f.write(cli_source(n, lengths))
+        os.makedirs(root, exist_ok=True)
+        if case["config"] is not None:
+            with open(os.path.join(root, ".codelimit.yml"), "w") as f:
+                f.write(case["config"])
+        call = {"paths": case["args"], "exclude": case["exclude"], "quiet": case["quiet"], "verbose": case["verbose"]}
+        job = os.path.join(tmp, "job.json")
+        with open(job, "w") as f:
+            _json.dump({"root": root, "calls": [call] * case.get("calls", 1)}, f)
+        env = dict(os.environ, COLUMNS="300", PYTHONHASHSEED="0")
+        env.pop("PYTHONWARNINGS", None)
+        env["PYTHONWARNINGS"] = "ignore"
+        p = subprocess.run([sys.executable, os.path.join(common.VERIF, "harness", "c02_cli_worker.py"), job],
+                           stdout=subprocess.PIPE, stderr=subprocess.STDOUT, text=True, env=env, timeout=300)
+        chunks = p.stdout.split("\x1e\x1eC02-CALL-END ")
+        obs = []
+        for k in range(len(chunks) - 1):
+            out = chunks[k] if k == 0 else chunks[k].split("\n", 1)[1] if "\n" in chunks[k] else ""
+            meta = _json.loads(chunks[k + 1].split("\n", 1)[0])
+            obs.append({"code": meta["code"], "error": meta["error"], "out": out})
+        if len(obs) != case.get("calls", 1):
+            obs.append({"code": None, "error": "worker exited with %s: %s" % (p.returncode, p.stdout[-400:]), "out": ""})
+        return obs
+    finally:
+        shutil.rmtree(tmp, ignore_errors=True)
+
+
+def cli_judge(case, obs):
+    exp = cli_expected(case)
+    bad = []
+    for k, o in enumerate(obs):
+        tag = "" if k == 0 else "call %d in the same process: " % (k + 1)
+        if o["error"]:
+            bad.append(tag + "check raised " + o["error"]); continue
+        if o["code"] != exp["code"]:
+            bad.append(tag + "exit status %s, required %d" % (o["code"], exp["code"]))
+        if exp["silent"]:
+            if o["out"].strip():
+                bad.append(tag + "--quiet and no function longer than 30 lines: nothing may be printed, but the command printed %r" % o["out"][:300])
+            continue
+        got, count, sparkles = {}, None, False
+        for line in o["out"].splitlines():
+            m = _CLI_LINE.match(line)
+            if m and not line.startswith("["):
+                got.setdefault(m.group(1), []).append([m.group(1), int(m.group(2)), int(m.group(4)), m.group(6).rstrip()])   # the column is not C02's business
+                continue
+            m2 = re.match(r"^(\d+) files checked, (?:(\d+) functions need refactoring|.*Refactoring not necessary)", line)
+            if m2:
+                files_checked = int(m2.group(1))
+                count = int(m2.group(2)) if m2.group(2) else 0
+                sparkles = m2.group(2) is None
+                if files_checked != len(exp["checked"]):
+                    bad.append(tag + "%d files checked, required %d" % (files_checked, len(exp["checked"])))
+        want = {n: v for n, v in exp["checked"].items() if v}
+        if got != want:
+            bad.append(tag + "listed %s, required %s" % ([r for v in got.values() for r in v][:5], [r for v in want.values() for r in v][:5]))
+        if count is None:
+            bad.append(tag + "no summary line in %r" % o["out"][-200:])
+        elif count != exp["total"] or sparkles != (exp["total"] == 0):
+            bad.append(tag + "summary counts %d functions, required %d" % (count, exp["total"]))
+    return bad
+
+
+def cli_entry_stream(ctx):
+    from concurrent.futures import ThreadPoolExecutor
+    rnd = ctx.rng("cli-entry")
+    cases = []
+    for quiet in (True, False):
+        for how in ("none", "option", "config-true", "config-false"):
+            for cls in ("clean", "warn", "alarm"):
+                for form in ("files", "dot"):
+                    cases.append(gen_cli_case(rnd, quiet, how, cls, form))
+    for _ in range(ctx.pick(8, 400)):
+        cases.append(gen_cli_case(rnd, rnd.random() < 0.7, rnd.choice(["none", "option", "config-true", "config-false"]),
+                                  rnd.choice(["clean", "clean", "warn", "alarm"]), rnd.choice(["files", "dot", "dirs"])))
+    with ThreadPoolExecutor(max_workers=14) as ex:
+        observed = list(ex.map(run_cli_case, cases))
+    fails = []
+    stats = {"processes": len(cases), "calls": 0, "quiet": 0, "verbose_on": 0, "must_be_silent": 0, "second_call_in_process": 0,
+             "with_exclusions": 0, "exit_1": 0}
+    for c, obs in zip(cases, observed):
+        bad = cli_judge(c, obs)
+        exp = cli_expected(c)
+        stats["calls"] += len(obs)
+        stats["quiet"] += 1 if c["quiet"] else 0
+        stats["verbose_on"] += 1 if (c["verbose"] or (c["config"] or "").startswith("verbose: true")) else 0
+        stats["must_be_silent"] += 1 if exp["silent"] else 0
+        stats["second_call_in_process"] += 1 if c["calls"] > 1 else 0
+        stats["with_exclusions"] += 1 if (c["exclude"] or "exclude" in (c["config"] or "")) else 0
+        stats["exit_1"] += exp["code"]
+        if bad:
+            fails.append({"input": c, "observed": [{"code": o["code"], "out": o["out"][:400]} for o in obs], "required": bad[:5]})
+    fails.sort(key=lambda f: len(str(f["input"])))
+    return fails, stats
+
+
+# ------------------------------------------------------------------ stream `scan-history`: state probe for the counters. A tree of
+# real source files (function lengths known by construction) is scanned, changed (a file copied / renamed to the sibling
+# language of the same text: .js <-> .ts, .c <-> .cpp; rewritten; deleted) and scanned AGAIN with the first report handed
+# back as cached_report (what `codelimit scan` does on every run but the first). The per-language counters, the findings
+# list and `check .` must be those of the files as they are now.
+
+FAMILY = {".js": [".js", ".ts"], ".ts": [".js", ".ts"], ".c": [".c", ".cpp"], ".cpp": [".c", ".cpp"], ".py": [".py"]}
+HIST_LANG = {".py": "Python", ".js": "JavaScript", ".ts": "TypeScript", ".c": "C", ".cpp": "C++"}
+HIST_DIRS = ["", "web", "src", "src/deep", "lib"]
+HIST_STEMS = ["app", "core", "util", "main", "api"]
+
+
+def gen_history_case(rnd):
+    files = {}
+    for _ in range(rnd.choice([2, 3, 4, 5])):
+        d = rnd.choice(HIST_DIRS)
+        name = (d + "/" if d else "") + rnd.choice(HIST_STEMS) + rnd.choice(list(HIST_LANG))
+        files[name] = [rnd.choice(BOUNDARY + [3, 45, 75, 120]) for _ in range(rnd.choice([1, 2, 3]))]
+    steps = []
+    cur = dict(files)
+    for _ in range(rnd.choice([1, 2, 2, 3])):
+        r = rnd.random()
+        names = sorted(cur)
+        if r < 0.5 and names:
+            src = rnd.choice(names)
+            stem, ext = os.path.splitext(src)
+            d = rnd.choice(HIST_DIRS) if rnd.random() < 0.3 else os.path.dirname(src)
+            dst = (d + "/" if d else "") + os.path.basename(stem) + rnd.choice(FAMILY[ext])
+            if dst in cur:
+                continue
+            op = rnd.choice(["copy", "move"])
+            steps.append([op, src, dst]); cur[dst] = list(cur[src])
+            if op == "move":
+                del cur[src]
+        elif r < 0.8 and names:
+            dst = rnd.choice(names)
+            cur[dst] = [rnd.choice(BOUNDARY + [3, 45, 75]) for _ in range(rnd.choice([0, 1, 2]))]
+            steps.append(["write", dst, list(cur[dst])])
+        elif names and len(names) > 1:
+            src = rnd.choice(names)
+            steps.append(["delete", src]); del cur[src]
+    return {"stream": "scan-history", "files": files, "steps": steps}
+
+
+def history_after(case):
+    cur = {k: list(v) for k, v in case["files"].items()}
+    for st in case["steps"]:
+        if st[0] in ("copy", "move"):
+            cur[st[2]] = list(cur[st[1]])
+            if st[0] == "move":
+                del cur[st[1]]
+        elif st[0] == "write":
+            cur[st[1]] = list(st[2])
+        else:
+            del cur[st[1]]
+    return cur
+
+
+def counters_expected(files):
+    out = {}
+    for n, ls in files.items():
+        t = out.setdefault(HIST_LANG[os.path.splitext(n)[1]], {"files": 0, "functions": 0, "hard_to_maintain": 0, "unmaintainable": 0})
+        t["files"] += 1; t["functions"] += len(ls)
+        t["hard_to_maintain"] += sum(1 for v in ls if 30 < v <= 60)
+        t["unmaintainable"] += sum(1 for v in ls if v > 60)
+    return out
+
+
+def findings_expected(files):
+    return sorted((n, "u%d" % i, v) for n, ls in files.items() for i, v in enumerate(ls) if v > 30)
+
+
+def observe_codebase(cb):
+    from codelimit.common.report.Report import Report
+    cb.aggregate()
+    totals = {l: {"files": t.files, "functions": t.functions, "hard_to_maintain": t.hard_to_maintain, "unmaintainable": t.unmaintainable}
+              for l, t in cb.totals.items()}
+    units = sorted((u.file, u.measurement.unit_name, u.measurement.value) for u in Report(cb).all_report_units_sorted_by_length_asc(30))
+    return totals, units
+
+
+def write_files(root, files, only=None):
+    for n, ls in files.items():
+        if only is not None and n not in only:
+            continue
+        os.makedirs(os.path.dirname(os.path.join(root, n)) or root, exist_ok=True)
+        with open(os.path.join(root, n), "w") as f:
+            f.write(cli_source(n, ls))
+
+
+def run_history_case(case):
+    """scan, change the tree, scan again with the first report handed back (as `codelimit scan` does) -> violated clauses"""
+    import shutil
+    import select_real as sel
+    tmp = os.path.realpath(tempfile.mkdtemp(prefix="c02hist_"))
+    root = os.path.join(tmp, "root")
+    os.makedirs(root)
+    cwd = os.getcwd()
+    bad = []
+    try:
+        sel.reset_configuration()
+        write_files(root, case["files"])
+        os.chdir(tmp)
+        _e, _a, cb1 = sel.run_scan_cb(root)
+        cached = sel.as_cached_report(cb1)
+        t1, u1 = observe_codebase(cb1)
+        if t1 != counters_expected(case["files"]) or u1 != findings_expected(case["files"]):
+            bad.append("first scan: counters %s findings %s, required %s %s" % (t1, u1, counters_expected(case["files"]), findings_expected(case["files"])))
+        for st in case["steps"]:
+            if st[0] == "copy":
+                os.makedirs(os.path.dirname(os.path.join(root, st[2])), exist_ok=True)
+                shutil.copyfile(os.path.join(root, st[1]), os.path.join(root, st[2]))
+            elif st[0] == "move":
+                os.makedirs(os.path.dirname(os.path.join(root, st[2])), exist_ok=True)
+                os.rename(os.path.join(root, st[1]), os.path.join(root, st[2]))
+            elif st[0] == "write":
+                write_files(root, {st[1]: st[2]})
+            else:
+                os.unlink(os.path.join(root, st[1]))
+        after = history_after(case)
+        _e, _a, cb2 = sel.run_scan_cb(root, cached)
+        t2, u2 = observe_codebase(cb2)
+        if t2 != counters_expected(after):
+            bad.append("second scan (first report handed back): per-language counters %s, required %s" % (t2, counters_expected(after)))
+        if u2 != findings_expected(after):
+            bad.append("second scan (first report handed back): findings %s, required %s" % (u2, findings_expected(after)))
+        # the check command on the same files must raise the alarm for the same functions
+        os.chdir(root)
+        r = sel.run_check(["."])
+        listed = sorted((l[0], l[4], l[3]) for l in r["listed"])
+        if listed != findings_expected(after) or r["code"] != (1 if any(v > 60 for ls in after.values() for v in ls) else 0):
+            bad.append("check . lists %s (exit %s), required %s" % (listed, r["code"], findings_expected(after)))
+    except Exception as e:
+        bad.append("raised %s: %s" % (type(e).__name__, e))
+    finally:
+        os.chdir(cwd)
+        sel.reset_configuration()
+        shutil.rmtree(tmp, ignore_errors=True)
+    return bad
+
+
+
+def scan_history_stream(ctx):
+    rnd = ctx.rng("scan-history")
+    cases = [gen_history_case(rnd) for _ in range(ctx.pick(30, 300))]
+    fails = []
+    stats = {"histories": len(cases), "steps": {}, "renamed_to_other_language": 0}
+    for c in cases:
+        for st in c["steps"]:
+            stats["steps"][st[0]] = stats["steps"].get(st[0], 0) + 1
+            if st[0] in ("copy", "move") and os.path.splitext(st[1])[1] != os.path.splitext(st[2])[1]:
+                stats["renamed_to_other_language"] += 1
+        bad = run_history_case(c)
+        if bad:
+            fails.append({"input": c, "observed": bad[:3], "required": "per-language hard-to-maintain / unmaintainable counters, findings (> 30) and check agree with the function lengths of the files as they are now"})
+    fails.sort(key=lambda f: len(str(f["input"])))
+    return fails, stats
+
+
 def correspond(ctx):
     """real check_command / CheckResult.report output lines (path as printed from any working directory, position, length, symbol, summary) vs Model/CheckPrint.lean (Props/Gaps.lean part 3)"""
     import gaps_stream
@@ -342,5 +708,15 @@ def correspond(ctx):
     res["evaluations"] += sum(v.get(k, 0) for v in counts.values() if isinstance(v, dict)
                               for k in ("texts", "byte_files", "check_command_runs", "report_runs", "cases"))
     res["distribution"] = dict(res.get("distribution", {}), gaps=counts)
+    cfails, cstats = cli_entry_stream(ctx)
+    res["oracle_failures"] = cfails[:10] + list(res["oracle_failures"])
+    res["evaluations"] += cstats["calls"]
+    res["distribution"]["cli_entry"] = cstats
+    res["rule"] += " PLUS cli-entry: the CLI entry function codelimit.__main__.check(paths, exclude, quiet, verbose) in %d fresh interpreters on real source files (functions of exact lengths incl. 15/16, 30/31, 60/61): the full product quiet x (verbose off / --verbose / .codelimit.yml verbose true / false) x (no function > 30 / some in 31..60 / some > 60) x (file arguments / `.`) + random invocations (directory arguments, --exclude, config exclude, the same call twice in one process); stdout+stderr, listing, summary and exit status judged by the property text" % cstats["processes"]
+    hfails, hstats = scan_history_stream(ctx)
+    res["oracle_failures"] = hfails[:5] + list(res["oracle_failures"])
+    res["evaluations"] += hstats["histories"]
+    res["distribution"]["scan_history"] = hstats
+    res["rule"] += " PLUS scan-history: %d histories scan -> change (copy / rename to the sibling language of the same text, rewrite, delete) -> scan again with the first report handed back: per-language counters, findings and `check .` judged by the lengths the files have now" % hstats["histories"]
     res["rule"] += " PLUS real check_command / CheckResult.report output lines (path as printed from any working directory, position, length, symbol, summary) vs Model/CheckPrint.lean (Props/Gaps.lean part 3)"
     return res
